@@ -819,7 +819,18 @@ static MMessageField * ImportMMessageField(const char * fieldName, uint32 nameLe
    return NULL;
 }
 
+#ifndef MUSCLE_MAX_MESSAGE_NESTING_DEPTH
+# define MUSCLE_MAX_MESSAGE_NESTING_DEPTH (1024)  /* we refuse to unflatten Messages nested more deeply than this, to thwart stack-overflow attacks based on overly-deep recursions */
+#endif
+
+static c_status_t MMUnflattenMessageAux(MMessage * msg, const void * inBuf, uint32 inputBufferBytes, uint32 nestDepth);
+
 c_status_t MMUnflattenMessage(MMessage * msg, const void * inBuf, uint32 inputBufferBytes)
+{
+   return MMUnflattenMessageAux(msg, inBuf, inputBufferBytes, 0);
+}
+
+static c_status_t MMUnflattenMessageAux(MMessage * msg, const void * inBuf, uint32 inputBufferBytes, uint32 nestDepth)
 {
    uint32 readOffset = 0;
    const uint8 * buffer = (const uint8 *) inBuf;
@@ -906,7 +917,7 @@ c_status_t MMUnflattenMessage(MMessage * msg, const void * inBuf, uint32 inputBu
                      MMessage * newMsg = MMAllocMessage(0);
                      if (newMsg)
                      {
-                        if (MMUnflattenMessage(newMsg, &buffer[eOffset], entryLen) == CB_NO_ERROR)
+                        if ((nestDepth < MUSCLE_MAX_MESSAGE_NESTING_DEPTH)&&(MMUnflattenMessageAux(newMsg, &buffer[eOffset], entryLen, nestDepth+1) == CB_NO_ERROR))
                         {
                            ret = CB_NO_ERROR;
                            eOffset += entryLen;
